@@ -184,7 +184,7 @@ class TlcResult:
     def coverage(self):
         """action name -> (taken distinct, generated) from `-coverage` output."""
         cov = {}
-        for m in re.finditer(r"^<(\w+) line \d+, col \d+ to line \d+, col \d+ of module (\w+)>: (\d+):(\d+)", self.out, re.M):
+        for m in re.finditer(r"^<(\w+) line \d+, col \d+ to line \d+, col \d+ of module (\w+)(?: \([\d ]+\))?>: (\d+):(\d+)", self.out, re.M):
             cov[m.group(1)] = (int(m.group(3)), int(m.group(4)))
         return cov
 
